@@ -295,6 +295,27 @@ func (s *Subscription) ReleaseRPCResources() {
 	s.unqueueEvents(queueReasonLoading)
 }
 
+// CancelRPCResources reverts GetRPCResources for a response that does not leave
+// the client holding the resources, such as the response to a get request. The
+// resources are not marked as sent, and their events stay queued until the
+// resources are sent through another request, or are disposed.
+func (s *Subscription) CancelRPCResources() {
+	s.cancelRPCResources(false)
+}
+
+func (s *Subscription) cancelRPCResources(indirect bool) {
+	if indirect {
+		s.indirectsent--
+	}
+	if s.state != stateToSend {
+		return
+	}
+	s.state = stateReady
+	for _, sc := range s.refs {
+		sc.sub.cancelRPCResources(true)
+	}
+}
+
 func (s *Subscription) queueEvents(reason uint8) {
 	s.queueFlag |= reason
 }
